@@ -6,6 +6,7 @@ import MV.Model.Transpose
 import MV.Gen.SrcRel
 import MV.Gen.SrcPitch
 import MV.Gen.SrcTonality
+import MV.Gen.SrcOps
 open MV MV.Codec
 
 def showTon (t : Tonality) : String := toString (encTon t)
@@ -60,6 +61,47 @@ def step : List SExp → String
   | [.atom "teq", .atom w, a, b] =>
       match decTon a, decTon b with
       | some a, some b => showBool (if w == "src" then Src.Tonality_deq a b else a.pyEq b)
+      | _, _ => "bad-args"
+  | [.atom "noabs", .atom w, n, k] =>
+      match decNote n, k.asInt? with
+      | some n, some k => toString (encNote (if w == "src" then Src.Note_oabs n k else n.oabs k))
+      | _, _ => "bad-args"
+  | [.atom "no", .atom w, n, k] =>
+      match decNote n, k.asInt? with
+      | some n, some k => toString (encNote (if w == "src" then Src.Note_o n k else n.o k))
+      | _, _ => "bad-args"
+  | [.atom "neq", .atom w, a, b] =>
+      match decNote a, decNote b with
+      | some a, some b => showBool (if w == "src" then Src.Note_deq a b else a.pyEq b)
+      | _, _ => "bad-args"
+  | [.atom "to", .atom w, t, k] =>
+      match decTon t, k.asInt? with
+      | some t, some k => showTon (if w == "src" then Src.Tonality_o t k else t.o k)
+      | _, _ => "bad-args"
+  | [.atom "tflat", .atom w, t] =>
+      match decTon t with
+      | some t => showTon (if w == "src" then Src.Tonality_b t else t.flat)
+      | none => "bad-args"
+  | [.atom "tsharp", .atom w, t] =>
+      match decTon t with
+      | some t => showTon (if w == "src" then Src.Tonality_s t else t.sharp)
+      | none => "bad-args"
+  | [.atom "co", .atom w, c, k] =>
+      match decChord c, k.asInt? with
+      | some c, some k =>
+          let r := if w == "src" then Src.Chord_o c k else c.o k
+          s!"{showTon r.ton} {r.oct} {r.elem}"
+      | _, _ => "bad-args"
+  | [.atom "cmod", .atom w, c, t] =>
+      match decChord c, decTon t with
+      | some c, some t =>
+          let r := if w == "src" then Src.Chord_dmod c t else c.modulate t
+          s!"{showTon r.ton} {r.oct} {r.elem}"
+      | _, _ => "bad-args"
+  | [.atom "parse", .atom w, c, p] =>
+      match decChord c, p.asInt? with
+      | some c, some p =>
+          showRes (fun (n : Note) => s!"{n.kind.toStr} {n.val} {n.oct} {n.dur}") (if w == "src" then Src.Chord_parse c p else c.parse p)
       | _, _ => "bad-args"
   | _ => "bad-op"
 
